@@ -62,10 +62,10 @@ var (
 func init() {
 	plans["C05"] = func() []planItem {
 		return []planItem{
-			{register(worldScenario("C05", specTwoCreates, chainOracle)), 4, 5},
+			{register(worldScenario("C05", specTwoCreates, chainOracle)), 3, 5},
 			{register(worldScenario("C05", specDisjoint3, chainOracle)), 3, 4},
-			{register(worldScenario("C05", specDisjoint3Crash, chainOracle)), 3, 4},
-			{register(worldScenario("C05", specMixed3, chainOracle)), 3, 4},
+			{register(worldScenario("C05", specDisjoint3Crash, chainOracle)), 2, 4},
+			{register(worldScenario("C05", specMixed3, chainOracle)), 2, 4},
 		}
 	}
 	plans["C06"] = func() []planItem {
@@ -220,5 +220,111 @@ func init() {
 			{register(worldScenario("C16", specEventsPreview, eventOracle)), 2, 3},
 			{register(worldScenario("C16", specEventsCrash, eventOracle)), 2, 3},
 		}
+	}
+}
+
+
+// variants in which the first request is abandoned by its caller (context cancelled) at any moment
+func withCancel(sp worldSpec, names ...string) worldSpec {
+	out := sp
+	out.Name = sp.Name + "-cancel"
+	out.Gen1 = append([]reqSpec{}, sp.Gen1...)
+	for i := range out.Gen1 {
+		for _, n := range names {
+			if out.Gen1[i].Name == n {
+				out.Gen1[i].Cancellable = true
+			}
+		}
+	}
+	return out
+}
+
+func init() {
+	base02, base06, base11, base07, base10, base16, base05 := plans["C02"], plans["C06"], plans["C11"], plans["C07"], plans["C10"], plans["C16"], plans["C05"]
+	plans["C02"] = func() []planItem {
+		return append(base02(), planItem{register(worldScenario("C02", withCancel(specSpend2Lit, "s1"), spendOracle)), 3, 4},
+			planItem{register(worldScenario("C02", withCancel(specRevertSpend, "r0"), spendOracle)), 3, 4})
+	}
+	plans["C05"] = func() []planItem {
+		return append(base05(), planItem{register(worldScenario("C05", withCancel(specTwoCreates, "c1"), chainOracle)), 3, 4})
+	}
+	plans["C06"] = func() []planItem {
+		return append(base06(), planItem{register(worldScenario("C06", withCancel(specTwoCreates, "c1"), ackOracle)), 3, 4},
+			planItem{register(worldScenario("C06", withCancel(specDisjoint3, "m1"), ackOracle)), 2, 3})
+	}
+	plans["C11"] = func() []planItem {
+		return append(base11(), planItem{register(worldScenario("C11", withCancel(specRef2, "c1"), refOracle)), 3, 4})
+	}
+	plans["C07"] = func() []planItem {
+		sp := withCancel(specIK3, "c1")
+		return append(base07(), planItem{register(worldScenario("C07", sp, ikOracle)), 2, 3})
+	}
+	plans["C10"] = func() []planItem {
+		return append(base10(), planItem{register(worldScenario("C10", withCancel(specRevertSame3, "r0a"), revertOracle, spendOracle)), 2, 3})
+	}
+	plans["C16"] = func() []planItem {
+		return append(base16(), planItem{register(worldScenario("C16", withCancel(specEvents, "c1", "r0"), eventOracle)), 2, 3})
+	}
+}
+
+// variants in which any store read may fail (one deviation each)
+func withReadFaults(sp worldSpec) worldSpec {
+	out := sp
+	out.Name = sp.Name + "-readfaults"
+	out.FaultReads = true
+	out.Crash = false
+	out.Gen2 = nil
+	return out
+}
+
+func init() {
+	b02, b07, b10, b11 := plans["C02"], plans["C07"], plans["C10"], plans["C11"]
+	plans["C07"] = func() []planItem {
+		return append(b07(),
+			planItem{register(worldScenario("C07", withReadFaults(specIK2), ikOracle)), 3, 4},
+			planItem{register(worldScenario("C07", withReadFaults(specIKMeta), ikOracle)), 3, 4},
+			planItem{register(worldScenario("C07", withReadFaults(specIKRevert), ikOracle)), 3, 4})
+	}
+	plans["C11"] = func() []planItem {
+		return append(b11(), planItem{register(worldScenario("C11", withReadFaults(specRef2), refOracle)), 3, 4})
+	}
+	plans["C10"] = func() []planItem {
+		return append(b10(), planItem{register(worldScenario("C10", withReadFaults(specRevertSame2), revertOracle, spendOracle)), 3, 4})
+	}
+	plans["C02"] = func() []planItem {
+		return append(b02(), planItem{register(worldScenario("C02", withReadFaults(specSpend2Lit), spendOracle)), 3, 4},
+			planItem{register(worldScenario("C02", withReadFaults(specSpend2Meta), spendOracle)), 2, 3})
+	}
+}
+
+
+// a ledger that has only ever received metadata writes, stopped and started again
+var specMetaOnlyRestart = worldSpec{Name: "meta-only-restart", Crash: true,
+	Seed: func(st *memstore.Store) {
+		st.Seed(ledger.NewSetMetadataOnAccountLog(ledger.Now(), "cfg", metadata.Metadata{"k": "v"}))
+	},
+	Gen1: []reqSpec{{Name: "m1", Kind: "savemeta", TargetType: ledger.MetaTargetTypeAccount, TargetID: "c"}, {Name: "d1", Kind: "delmeta", TargetType: ledger.MetaTargetTypeAccount, TargetID: "c", Key: "d1"}},
+	Gen2: []reqSpec{{Name: "m2", Kind: "savemeta", TargetType: ledger.MetaTargetTypeAccount, TargetID: "c"}, create("c1", 5, "@world", "@a")},
+}
+
+func init() {
+	b05, b06 := plans["C05"], plans["C06"]
+	plans["C05"] = func() []planItem {
+		return append(b05(), planItem{register(worldScenario("C05", specMetaOnlyRestart, chainOracle)), 3, 4})
+	}
+	plans["C06"] = func() []planItem {
+		return append(b06(), planItem{register(worldScenario("C06", specMetaOnlyRestart, ackOracle)), 2, 3})
+	}
+}
+
+
+var specEventsFault = worldSpec{Name: "events-fault-insert", Seed: seedA100, FaultInsert: true,
+	Gen1: []reqSpec{create("c1", 5, "@world", "@b"), {Name: "r0", Kind: "revert", TxID: 0}},
+	Gen2: []reqSpec{create("c2", 5, "@world", "@b")}}
+
+func init() {
+	b16 := plans["C16"]
+	plans["C16"] = func() []planItem {
+		return append(b16(), planItem{register(worldScenario("C16", specEventsFault, eventOracle)), 2, 3})
 	}
 }
